@@ -49,6 +49,9 @@ BOUNDS = {
     "quick": "bases frac2d(2x2), immersed2d, simplex2d, t2d, frac3d(simplex), tilted (hand-built two-sided 2-d mortar "
     "in a dipping plane, 7 triangulations incl. reversed node numbering, both sign combinations of the normals): depth 2",
     "thorough": "same bases plus frac2d_4x2: depth 3 (frac3d: depth 2)",
+    "numbering (both tiers)": "perm1d on frac2d(2x2): new mortar side grids / new secondary grid with n = 2..6 cells, "
+    "n <= 4: all n! cell numberings, n = 5, 6: monotone, reversed, two interleaved; x node/face numbering in "
+    "{monotone, reversed, interleaved}; alone and after each of 6 fixed first replacements",
 }
 MIN_CLASSES = 4
 CHUNK = 1
@@ -90,6 +93,11 @@ def cases(tier):
     for base, depth in plan:
         for op in _ops(base):
             out.append({"base": base, "first": op, "depth": depth})
+    # numbering axis for 1-d grids (see "perm1d" below)
+    for fi in range(len(PERM_FIRST)):
+        for kind in ("m", "s"):
+            for n in (2, 3, 4, 5, 6):
+                out.append({"base": "perm1d", "first": fi, "kind": kind, "n": n, "depth": 2})
     # hand-built two-sided 2-d mortar grid in a dipping plane (see "tilted" below)
     for op in _tilted_ops():
         out.append({"base": "tilted", "first": op, "depth": 2 if tier == "quick" else 3})
@@ -544,10 +552,114 @@ def _run_tilted(case, out: Outcome) -> Outcome:
     return out
 
 
+# ------------------------------------------------------------------ numbering of 1-d grids
+# The 1-d grids handed in as new mortar side grids / new secondary grid are valid grids whose
+# cells (and nodes / faces) are numbered in any order along the fracture.
+
+PERM_FIRST = [
+    None,
+    ["m", 3, [2, 0, 1], 1],
+    ["m", 4, [1, 3, 0, 2], 0],
+    ["s", 3, [1, 2, 0], 2],
+    ["s", 4, [2, 0, 3, 1], 1],
+    ["m", 6, [0, 2, 4, 1, 3, 5], 1],
+    ["s", 5, [3, 0, 4, 1, 2], 0],
+]
+
+
+def _cell_perms(n):
+    import itertools
+
+    if n <= 4:
+        return [list(p) for p in itertools.permutations(range(n))]
+    if n == 5:
+        return [[0, 1, 2, 3, 4], [4, 3, 2, 1, 0], [0, 2, 4, 1, 3], [3, 0, 4, 1, 2]]
+    return [[0, 1, 2, 3, 4, 5], [5, 4, 3, 2, 1, 0], [0, 2, 4, 1, 3, 5], [5, 0, 3, 1, 4, 2]]
+
+
+def _node_perm(n_nodes, mode):
+    if mode == 0:
+        return np.arange(n_nodes)
+    if mode == 1:
+        return np.arange(n_nodes)[::-1].copy()
+    return np.r_[np.arange(0, n_nodes, 2), np.arange(1, n_nodes, 2)]  # interleaved
+
+
+def _perm_line(n, cperm, nmode, seg=(0.0, 2.0, 1.0)):
+    """1-d grid with n equal cells on the segment; cell j of the new grid is cell cperm[j]
+    of the monotone grid; node / face i of the new grid is node / face P[i] of the monotone
+    grid."""
+    import porepy as pp
+    import scipy.sparse as sps
+    from mc.oracles.grpH_mdgs import line_grid
+
+    g = line_grid(n, seg[0], seg[1], seg[2])
+    P = _node_perm(g.num_nodes, nmode)
+    fn = sps.csc_matrix(g.face_nodes.tocsr()[P, :][:, P])
+    cf = sps.csc_matrix(g.cell_faces.tocsr()[P, :][:, np.array(cperm)])
+    h = pp.Grid(1, g.nodes[:, P].copy(), fn, cf, "permuted 1d")
+    h.compute_geometry()
+    if abs(h.cell_volumes.sum() - (seg[1] - seg[0])) > 1e-12 or np.any(h.cell_volumes <= 0):
+        raise RuntimeError("harness: permuted 1-d grid is not a valid grid of the segment")
+    return h
+
+
+def _perm_apply(mdg, op):
+    intf, prim, sec = _target(mdg, "frac2d")
+    kind, n, cperm, nmode = op
+    if kind == "m":
+        _replace(mdg, interface_map={intf: {s: _perm_line(n, cperm, nmode) for s in intf.side_grids}})
+    else:
+        _replace(mdg, sd_map={sec: _perm_line(n, cperm, nmode)})
+
+
+def _run_perm(case, out: Outcome) -> Outcome:
+    first = PERM_FIRST[case["first"]]
+    seen = set()
+    for cperm in _cell_perms(case["n"]):
+        for nmode in (0, 1, 2):
+            op = [case["kind"], case["n"], cperm, nmode]
+            hist = ([first] if first else []) + [op]
+            mdg = copy.deepcopy(_pristine("frac2d"))
+            if first:
+                _perm_apply(mdg, first)  # (verified on its own in the cases with first = None)
+            out.transitions += 1
+            monotone = cperm == sorted(cperm) and nmode == 0
+            try:
+                _perm_apply(mdg, op)
+            except Exception as e:
+                out.violate("replacement of mortar / secondary grid raised", base="perm1d", history=hist, error=repr(e))
+                out.ev("VIOLATION")
+                continue
+            probs, nonm = [], False
+            for intf in mdg.interfaces():
+                P, nm = _check_interface(mdg, intf)
+                probs += P
+                nonm = nonm or nm
+            if probs:
+                out.violate("mortar projections do not conserve / preserve", base="perm1d", history=hist, problems=probs[:6])
+                out.ev("VIOLATION")
+                continue
+            d = _digest(mdg, TO)
+            if d not in seen:
+                seen.add(d)
+                out.states += 1
+            rev = cperm == sorted(cperm, reverse=True)
+            cls = "monotone" if monotone else "reversed" if rev and nmode != 2 else "scrambled"
+            out.ev(f"perm1d/{'+'.join(sorted({o[0] for o in hist}))}/{cls}/{'nonmatching' if nonm else 'matching'}",
+                   None if monotone else ("perm1d", str(hist)))
+            if not out.samples and not monotone and nonm:
+                out.samples.append({"base": "perm1d", "history": hist})
+    out.max_depth = max(out.max_depth, 2 if first else 1)
+    return out
+
+
 def run_case(case) -> Outcome:
     out = Outcome()
     if case["base"] == "tilted":
         return _run_tilted(case, out)
+    if case["base"] == "perm1d":
+        return _run_perm(case, out)
     base, depth = case["base"], case["depth"]
     first = case["first"]
     ops = _ops(base)
